@@ -176,6 +176,13 @@ theorem fracVal6_le {a b c d e f : Nat} (h1 : isAsciiDigit a = true) (h2 : isAsc
 /-- the checks of `datetime_date(...)` and `datetime(...)` -/
 def dtOk (t : DateTime) : Bool := !t.dateBad && !t.timeBad
 
+theorem dtOk_iff (t : DateTime) : dtOk t = true ↔
+    (1 ≤ t.effYear ∧ t.effYear ≤ 9999 ∧ 1 ≤ t.month ∧ t.month ≤ 12 ∧ 1 ≤ t.day ∧
+      t.day ≤ daysInMonth t.effYear t.month) ∧
+    (t.hour ≤ 23 ∧ t.minute ≤ 59 ∧ t.second ≤ 59 ∧ t.micro ≤ 999999) := by
+  simp [dtOk, DateTime.dateBad, DateTime.timeBad]
+  omega
+
 theorem strptime_ok_iff (fmt : List Dir) (s : Str) :
     (∃ t, strptime fmt s = .ok t) ↔
       ∃ vals, headFull (matchSeq fmt s) = some vals ∧ dtOk (assign fmt vals {}) = true := by
